@@ -59,6 +59,9 @@ struct Scenario {
     #[serde(default = "dpre")]
     pre: usize,
     steps: Vec<Step>,
+    /// the node is a lite (spv) client: it does not validate what it is given, so only "no handler call crashes" is checked
+    #[serde(default)]
+    spv: bool,
 }
 fn dg() -> u64 {
     20
@@ -444,7 +447,9 @@ struct Side {
 
 fn new_side(rt: &tokio::runtime::Runtime, w: &World, scn: &Scenario, name: &'static str) -> Side {
     let clock = SimClock::new(T0 + 1_000_000);
-    let mut f = FullNode::new(key(1), w.lw.cfg(), SimIo::new(), clock);
+    let mut cfg = w.lw.cfg();
+    cfg.spv = scn.spv;
+    let mut f = FullNode::new(key(1), cfg, SimIo::new(), clock);
     f.consensus.produce_blocks_by_timer = false;
     rt.block_on(async {
         f.init().await;
@@ -679,7 +684,7 @@ fn main() {
             match guarded(|| World::new(&rt, &scn)) {
                 Ok(wnew) => cache = Some((scn.g, scn.hb, scn.chain, wnew)),
                 Err(p) => {
-                    trace.emit(json!({"ev": "Step", "last": true, "complete": false, "chain": scn.chain, "scn": k, "i": 0, "op": "build", "conn": 0,
+                    trace.emit(json!({"ev": "Step", "crash_only": scn.spv, "last": true, "complete": false, "chain": scn.chain, "scn": k, "i": 0, "op": "build", "conn": 0,
                         "kind": "honest-chain", "hostile": false, "res": format!("Panic:{}", p), "resb": "skipped", "va": {}, "vb": {}, "sa": [], "sb": [],
                         "pa": [0, 0, 0], "pb": [0, 0, 0]}));
                     count += 1;
@@ -716,7 +721,7 @@ fn main() {
                     let order: Vec<usize> = scn.steps.iter().filter(|s| !s.hostile && s.op == "fetched" && s.kind == "next").map(|s| s.blk).collect();
                     order.windows(2).all(|w| w[0] < w[1])
                 };
-            trace.emit(json!({"ev": "Step", "last": last, "complete": complete, "chain": scn.chain, "scn": k, "i": i + 1, "op": st.op, "conn": st.conn, "kind": st.kind, "hostile": st.hostile,
+            trace.emit(json!({"ev": "Step", "crash_only": scn.spv, "last": last, "complete": complete && !scn.spv, "chain": scn.chain, "scn": k, "i": i + 1, "op": st.op, "conn": st.conn, "kind": st.kind, "hostile": st.hostile,
                 "res": ra, "resb": rb, "va": va, "vb": vb,
                 "sa": sent_to_honest(&ja, &hostile_conns, w), "sb": sent_to_honest(&jb, &hostile_conns, w),
                 "pa": [a.f.pending(Queue::Verification, HONEST), a.f.pending(Queue::Consensus, HONEST), a.f.pending(Queue::Router, HONEST)],
